@@ -1776,3 +1776,7 @@ _K_LOOP2 = "        children = ch(i, A)\n        A[i, :] = 0\n        sinks += [
 V("c03-row-clear-erases-self-loops", "C03", "fire", UT, _K_PRE, _K_PRE2, more=[(UT, _K_LOOP, _K_LOOP2)], rule="CYCLES.self-loop", what="pre-check skips the diagonal and the loop clears whole rows: a self-loop below another parent is accepted")
 V("c03-row-clear-alone", "C03", "undecided", UT, _K_LOOP, _K_LOOP2, what="whole-row clear with the full pre-check: self-loops are rejected before the loop")
 V("c03-silent-precheck-edges-alone", "C03", "silent", UT, _K_PRE, _K_PRE2, what="pre-check skips the diagonal, but the loop never clears a diagonal entry: the leftover test sees it")
+V("c02-silent-parent-table-int-array", "C02", "silent", AN, _AN_ND, _AN_ND + "        self._parents = [np.array(sorted(utils.pa(i, self.A)), dtype=int) for i in range(self.p)]\n",
+  more=[(AN, _AN_SEL, "                assignment = np.transpose(self.assignments[i](X[:, self._parents[i]]))\n")], what="sorted parent lists as integer index arrays (false alarm met on refactoring C02-T2-1 after the tables were read)")
+V("c02-parent-table-float-array", "C02", "fire", AN, _AN_ND, _AN_ND + "        self._parents = [np.array(sorted(utils.pa(i, self.A))) for i in range(self.p)]\n",
+  more=[(AN, _AN_SEL, "                assignment = np.transpose(self.assignments[i](X[:, self._parents[i]]))\n")], rule="CASES.anm", what="np.array([]) of a node without parents is a float array: IndexError for every source node")
